@@ -67,7 +67,12 @@ partial def runConsOps (n : Nat) (w : Int) (maxHealthy : Int) (st : ConsState) (
       let c' := setConfig st.c (parseCfg kvs st.c.cfg)
       runConsOps n w maxHealthy { st with c := c', partialCfg := kvBool kvs "partial" false } hist realOpen' rest (acc.push (s!"open={fmtBool (isOpenEff c')}" ++ "\t-"))
     | some "var" =>
-      runConsOps n w maxHealthy st hist realOpen' rest (acc.push (s!"open={fmtBool (isOpenEff st.c)}" ++ "\t-"))
+      -- the circuit's expvar view: state, name and the per-kind totals of the attached RunStats
+      let o := fmtBool (isOpenEff st.c)
+      let m := s!"open={o} vopen={o} vname=c vtot={fmtInts st.all.run.totals}"
+      let ro := fmtBool realOpen'
+      let sp := s!"open={ro} vopen={ro} vname=c vtot={fmtInts (SpecC20.kinds.map (SpecC20.total hist))}"
+      runConsOps n w maxHealthy st hist realOpen' rest (acc.push (m ++ "\t" ++ sp))
     | some "tick" =>
       let d := (toks.getD 1 "0").toInt?.getD 0
       let c' := { st.c with clock := st.c.clock + d }
